@@ -11,7 +11,7 @@ TECHNIQUE = ('runtime monitoring: per-frame recorder on top_k / find_new_prefixe
              'and reference-model oracles (CTC forward recursion, brute-force transcript table, dictionary prefix beam search) on every execution')
 RULE = ('row-normalised log-prob matrices T(1-12) x C(2-6), blank last; classes: dense random at several temperatures, near-one-hot, rows with exact '
         'zeros (-inf), rows where every non-blank is below the pre-selection threshold, repeated symbols with/without separating blank, constant rows, '
-        'two-level rows (ties); beam widths {1,2,3,5,8,50,5000}; default and non-pruning selector; unnormalised variants for the guard. '
+        'two-level rows (ties); beam widths {1,2,3,5,8,50,5000}; default selector and non-pruning selectors (ascending and best-first symbol order); unnormalised variants for the guard. '
         'non-trivial = at least two hypotheses returned or a frame where pruning removed a finite candidate; distinct = hash of (matrix, k, selector)')
 ASSUMPTIONS = ['ties at a pruning boundary (k-th vs (k+1)-th candidate within 1e-9) make the beam-equality clause ambiguous for that case; the frame recorder '
                'still validates the implementation\'s own choice there',
@@ -19,7 +19,7 @@ ASSUMPTIONS = ['ties at a pruning boundary (k-th vs (k+1)-th candidate within 1e
                'brute force over all alignments only for C^T <= 4096']
 N = {'quick': 3000, 'thorough': 200000}
 CLASSES = ['rand', 'peaky', 'onehot', 'zeros', 'allpruned', 'repeats', 'const', 'twolevel', 'unpruned_small', 'unnormalised']
-REQUIRED = ['decodes', 'overcount_checked', 'beam_compared', 'unpruned_compared', 'frames_monitored', 'frames_pruned', 'joins_observed', 'guard_checked']
+REQUIRED = ['bestfirst_selector_decodes', 'decodes', 'overcount_checked', 'beam_compared', 'unpruned_compared', 'frames_monitored', 'frames_pruned', 'joins_observed', 'guard_checked']
 EXHAUSTIVE_KEY = 'exhaustive_matrices'
 EXHAUSTIVE_NOTE = 'all matrices with two-level rows (weights in {1,2}), C = 3, T <= 2 (quick) / T <= 3 (thorough), every k in {1,2,3,50}, both selectors'
 KS = [1, 2, 3, 5, 8, 50]
@@ -27,6 +27,12 @@ KS = [1, 2, 3, 5, 8, 50]
 
 def nonpruning(l):
     return np.nonzero(l > -np.inf)
+
+
+def nonpruning_bestfirst(l):
+    """also non-pruning, but hands the symbols over best first (not in ascending index order)"""
+    idx = np.nonzero(l > -np.inf)[0]
+    return (idx[np.argsort(-l[idx], kind='stable')],)
 
 
 def setup(ctx):
@@ -180,7 +186,9 @@ def decode_and_check(lp, k, default_sel, mon, ctx, info, compare_beam=True):
         dec = D.CTCPrefixLogRawNumpyDecoder(letters + [D.BLANK_SYMBOL], k=k)
         selector = lambda row, c: row[c] > -10
     else:
-        dec = D.CTCPrefixLogRawNumpyDecoder(letters + [D.BLANK_SYMBOL], k=k, relevant_logits_selector=nonpruning)
+        dec = D.CTCPrefixLogRawNumpyDecoder(letters + [D.BLANK_SYMBOL], k=k, relevant_logits_selector=nonpruning_bestfirst if (int(lp.shape[0]) + k) % 2 else nonpruning)
+        if (int(lp.shape[0]) + k) % 2:
+            mon.count('bestfirst_selector_decodes')
         selector = lambda row, c: row[c] > -np.inf
     del ctx.rec[:]
     try:
